@@ -2726,3 +2726,16 @@ def only_type_annotations_make_a_position_type_valued(ctx):
         not problems,
         "; ".join(problems) + ": a position is keyed with the finer key function without a type[...] method asking for it (every class passed there becomes a key of its own and is resolved separately, recurse keys stop matching the entry point's), or a type[...] position is keyed by class and its methods stop matching",
     )
+
+
+# ---------------------------------------------------------------------------------------- the table as its callers see it
+def repeated_lookup_is_the_first_lookup(ctx):
+    from . import lookupexec
+
+    lookupexec.law(ctx, "repeat-is-first")
+
+
+def lookups_follow_the_ranking(ctx):
+    from . import lookupexec
+
+    lookupexec.law(ctx, "reference", "repeat-is-first")
